@@ -946,6 +946,19 @@ class Interp:
         target = self.prog.resolve_call(self.fi, e)
         if isinstance(e.func, ast.Attribute):
             self.eval(e.func.value, p, record)
+        # setattr(obj, "f", v) / for f in ("a", "b"): setattr(obj, f, v)  ==  obj.a = v; obj.b = v
+        if isinstance(e.func, ast.Name) and e.func.id == "setattr" and "setattr" not in self.locals and len(e.args) == 3 and record:
+            from .effects import _literal_names
+            names = _literal_names(self.fi, e.args[1])
+            if names:
+                tv = self.taint_of(e.args[2], p) if self.taint_mode else None
+                for f in names:
+                    tgt = ast.copy_location(ast.Attribute(value=e.args[0], attr=f, ctx=ast.Store()), e)
+                    ast.fix_missing_locations(tgt)
+                    if self.taint_mode:
+                        self.assign_taint(tgt, tv, p)
+                    self.assign(tgt, args[2], p, e.args[2])
+                return Const(None)
         if isinstance(target, ClassInfo):
             oid = ("new", self.fi.qualname, e.lineno, e.col_offset)
             for attr, exprs in target.init_fields.items():
@@ -1362,7 +1375,8 @@ class Interp:
                 self.assign_taint(a.target, tflat(self.taint_of(a.iter, p)), body)
             lid = ("loop", n.id)
             body.tag = tuple(sorted(set(body.tag) | {lid}, key=repr))
-            if ast.unparse(a.iter) in self.nonempty_loops and lid not in p.tag:
+            literal_nonempty = isinstance(a.iter, (ast.Tuple, ast.List)) and len(a.iter.elts) > 0
+            if (literal_nonempty or ast.unparse(a.iter) in self.nonempty_loops) and lid not in p.tag:
                 # assumed to iterate at least once: no exit before the first iteration
                 return [("body", body)]
             ex = p
